@@ -40,7 +40,7 @@ impl Prop for C04 {
             version: 3,
             remove: 2,
             delete_req: 1,
-            delete_own: 1,
+            delete_own: 3,
             vanish: 1,
             reopen: 2,
             rebuild: 0,
